@@ -1,10 +1,65 @@
 import Driver.Loop
 import Driver.Codec
+import PyGqlModel.Lex
+import PyGqlModel.BlockString
+import PyGqlModel.StringUtils
+import PyGqlModel.PrintString
+import PyGqlModel.Spec.Lexical
+import PyGqlModel.Spec.BlockStringSpec
 open PyGql
 
 namespace Driver.LexOps
 
-/-- answer the request if its "op" belongs to this group (stub: to be filled by the owner) -/
-def handle? (_j : J) : Option J := none
+def errKindName : Lex.ErrKind → String
+  | .unexpectedEOF => "UnexpectedEOF" | .unexpectedCharacter => "UnexpectedCharacter"
+  | .invalidCharacter => "InvalidCharacter" | .nonTerminatedString => "NonTerminatedString"
+  | .invalidEscapeSequence => "InvalidEscapeSequence" | .fuel => "<fuel>"
+
+def ofOptText : Option Text → J
+  | some t => J.ofText t
+  | none => .null
+
+def ofLoc : Option (Nat × Nat) → J
+  | some (l, c) => .arr [J.ofNat l, J.ofNat c]
+  | none => .null
+
+/-- answer the request if its "op" belongs to the lexical group -/
+def handle? (j : J) : Option J :=
+  match j.strD "op" with
+  | "lex" =>
+    let s := j.textD "text"
+    some <| match Lex.lexAll s with
+    | .ok toks => .obj [("ok", .bool true), ("tokens", .arr (toks.map tokToJson))]
+    | .error e =>
+      .obj [("ok", .bool false), ("kind", .str (errKindName e.kind)), ("pos", J.ofNat e.pos),
+            ("str_ok", .bool (StringUtils.highlighted s e.pos).isSome),
+            ("dict", ofLoc (StringUtils.toDict s e.pos))]
+  | "block_string" =>
+    let raw := j.textD "raw"
+    some <| .obj [("model", J.ofText (BlockString.parseBlockString raw)),
+                  ("spec", J.ofText (Spec.BlockStringValue raw))]
+  | "print_string" =>
+    let v := j.textD "value"
+    let ind := j.textD "indent"
+    let body :=
+      if j.boolD "desc" then PrintString.blockString v ind true
+      else PrintString.printStringValue v (j.boolD "block") ind
+    some <| .obj [("text", J.ofText (PrintString.indentN ind (j.natD "depth") body))]
+  | "index_to_loc" =>
+    let body := j.textD "body"
+    let pos := j.natD "pos"
+    some <| .obj [("loc", ofLoc (StringUtils.indexToLoc body pos)),
+                  ("highlight_ok", .bool (StringUtils.highlightLocation body pos).isSome),
+                  ("shown", match StringUtils.highlightLocation body pos with
+                            | some h => .arr (h.shown.map J.ofText)
+                            | none => .null)]
+  | "spec_lexeme" =>
+    let l := j.textD "text"
+    let raw := Spec.Lexical.blockStringRaw l
+    some <| .obj [("int", .bool (Spec.Lexical.isIntValue l)), ("float", .bool (Spec.Lexical.isFloatValue l)),
+                  ("name", .bool (Spec.Lexical.isName l)),
+                  ("string", ofOptText (Spec.Lexical.stringValue l)),
+                  ("block", ofOptText (raw.map Spec.BlockStringValue))]
+  | _ => none
 
 end Driver.LexOps
